@@ -20,6 +20,16 @@ SIG = ('pub fn decode_regular__mappings_loop(mappings: &str, range_mappings: &st
        'names: &Vec<Value>, tokens: &mut Vec<RawToken>) -> Result<()> {\n')
 
 
+# mutation canaries (thorough tier): textual mutations of the EXTRACTED copy that must each fail an obligation of the named item
+MUTANTS = [
+    ('decoder::decode_regular__mappings_loop', 'nums\\.len\\(\\) != 4 && nums\\.len\\(\\) != 5', 'nums.len() != 4 && nums.len() != 5 && nums.len() != 3'),
+    ('decoder::decode_regular__mappings_loop', '\\n\\s*dst_col = 0;\\n', '\n'),
+    ('decoder::decode_regular__mappings_loop', 'next_src_id < 0 \\|\\| ', ''),
+    ('decoder::decode_regular__mappings_loop', 'rmi\\.get\\(line_index\\)', 'rmi.get(line_index + 1)'),
+    ('decoder::decode_rmi', "byte - b'a' \\+ 26", "byte - b'a' + 25"),
+]
+
+
 def outline_mapping_loop(u):
     """R-outline: statements of decode_regular up to and including its first loop, verbatim, as a
     function of their free variables.  The six `let` bindings that only unpack `rsm` (checked to be
